@@ -231,6 +231,11 @@ func (tfs *tagFamilyFilters) Eq(tagName string, tagValue string) bool {
 func (tfs *tagFamilyFilters) Range(tagName string, rangeOpts index.RangeOpts) (bool, error) {
 	for _, tff := range tfs.tagFamilyFilters {
 		if tf, ok := (*tff)[tagName]; ok {
+			if len(tf.min) == 0 || len(tf.max) == 0 {
+				// No bounds were recorded for this tag in the block (bytes.Compare would order the
+				// empty slice before every bound and rule the block out): nothing can be decided.
+				continue
+			}
 			if rangeOpts.Lower != nil {
 				lower, ok := rangeOpts.Lower.(*index.FloatTermValue)
 				if !ok {
